@@ -18,7 +18,7 @@ TOL = 3
 
 def model_check(ctx):
     if ctx.quick:
-        ctx.mc("Smooth", "MC_Smooth_q.cfg", label="abstract kernels binomial/skew/wide x all 0/1 designs on 2x2, 1x3 x 81 padding combinations")
+        ctx.mc("Smooth", "MC_Smooth_q.cfg", label="abstract kernels binomial/skew/wide x all 0/1 designs on 2x2 x 81 padding combinations")
     else:
         ctx.mc("Smooth", "MC_Smooth_t.cfg", label="5 abstract kernels x all 0/1 designs on 2x2, 1x3, 3x2, 2x3 x 81 padding combinations", timeout=3 * 3600)
         ctx.mc("Smooth", "MC_Smooth_t2.cfg", label="5 abstract kernels x all {0,1,2} designs on 2x2 x 81 padding combinations")
